@@ -216,44 +216,75 @@ def pow_exact(a, b):
     return Fraction(r)
 
 
-def eval_term(e, env, denv, powop="^"):
-    """env: name -> Fraction; denv: name -> Fraction (value of der(name))."""
+def _ev(e, env, denv, powop):
+    """Dual-number evaluation: (value, d/dt value); the derivative part is None where it is not
+    exactly representable (non-constant exponent) or after a `der` (no second derivatives)."""
     k = e[0]
     if k == "v":
         if e[1] not in env:
             raise EvalError("unbound:" + e[1])
-        return env[e[1]]
+        if e[1] == "time":
+            return env[e[1]], Fraction(1)
+        return env[e[1]], denv.get(e[1])
     if k == "n":
-        return frac_of_lit(e[1])
+        return frac_of_lit(e[1]), Fraction(0)
     if k == "b":
-        a = eval_term(e[2], env, denv, powop)
-        b = eval_term(e[3], env, denv, powop)
+        a, da = _ev(e[2], env, denv, powop)
+        b, db = _ev(e[3], env, denv, powop)
+        both = da is not None and db is not None
         op = e[1]
         if op == "+":
-            return a + b
+            return a + b, (da + db) if both else None
         if op == "-":
-            return a - b
+            return a - b, (da - db) if both else None
         if op == "*":
-            return a * b
+            return a * b, (da * b + a * db) if both else None
         if op == "/":
             if b == 0:
                 raise EvalError("div0")
-            return a / b
+            return a / b, ((da * b - a * db) / (b * b)) if both else None
         if op == powop:
-            return pow_exact(a, b)
+            v = pow_exact(a, b)
+            d = None
+            if both and db == 0:
+                n = b.numerator
+                if n == 0 or da == 0:
+                    d = Fraction(0)
+                elif not (a == 0 and n - 1 < 0):
+                    d = n * pow_exact(a, Fraction(n - 1)) * da
+            return v, d
         raise EvalError("op:" + op)
     if k == "u":
-        a = eval_term(e[2], env, denv, powop)
-        return -a if e[1] == "-" else a
+        a, da = _ev(e[2], env, denv, powop)
+        if e[1] == "-":
+            return -a, (-da if da is not None else None)
+        return a, da
     if k == "c":
-        return fn_value(e[1], eval_term(e[2], env, denv, powop))
+        a, da = _ev(e[2], env, denv, powop)
+        return fn_value(e[1], a), (FN_COEF[e[1]][0] * da if da is not None else None)
     if k == "d":
-        if e[1][0] != "v":
+        _, d = _ev(e[1], env, denv, powop)
+        if d is None:
             raise EvalError("der")
-        if e[1][1] not in denv:
-            raise EvalError("unbound:der " + e[1][1])
-        return denv[e[1][1]]
+        return d, None
     raise EvalError("term")
+
+
+def eval_term(e, env, denv, powop="^"):
+    """env: name -> Fraction; denv: name -> Fraction (value of der(name); 0 for constants and
+    parameters).  `der` of a composite expression is evaluated by the sum/product/quotient/power
+    rules (symbols are dual numbers in t); the function stand-ins are affine, so their chain rule is exact."""
+    return _ev(e, env, denv, powop)[0]
+
+
+def has_composite_der(e):
+    if e[0] == "d":
+        return e[1][0] != "v" or has_composite_der(e[1])
+    if e[0] == "b":
+        return has_composite_der(e[2]) or has_composite_der(e[3])
+    if e[0] in ("u", "c"):
+        return has_composite_der(e[2])
+    return False
 
 
 def outcome(fn):
